@@ -338,6 +338,8 @@ impl TreeMachine {
         }
     }
     fn fail(&mut self, tag: &str, msg: String) {
+        // (a message may quote a whole iteration of a 10^5-entry map)
+        let msg = if msg.len() > 3000 { format!("{} … [{} more bytes]", &msg[..msg.char_indices().take_while(|(i, _)| *i < 3000).last().map(|(i, c)| i + c.len_utf8()).unwrap_or(0)], msg.len() - 3000) } else { msg };
         self.fails.push(format!("[{}] {}", tag, msg));
     }
     fn ev(&mut self, name: &str) {
